@@ -606,6 +606,42 @@ func ruleNewestWins(c *Ctx) {
 		})
 	}
 	c.minInstances("merge-map insertions", k, 1)
+	// (b') what is fed to that merge still contains the dead records: the per-segment collectors (functions of the read
+	// cone that walk an on-disk tree and return entries) apply no tombstone/expiry test of their own. A tombstone in a
+	// newer segment is what hides the live version in an older one; dropped at collection, the old value reappears.
+	mergeFns := map[*ssa.Function]bool{}
+	for _, f := range cone {
+		instrs(f, func(in ssa.Instruction) {
+			if mu, ok := in.(*ssa.MapUpdate); ok {
+				if mt, ok := mu.Map.Type().Underlying().(*types.Map); ok && isEntryPtr(mt.Elem()) {
+					mergeFns[f] = true
+				}
+			}
+		})
+	}
+	readNode := c.P.MustFunc("ReadNode")
+	nc := 0
+	for _, f := range cone {
+		if mergeFns[f] || f.Pkg != c.P.Main || len(f.Blocks) == 0 || f.Signature.Results().Len() == 0 || !isEntrySliceType(f.Signature.Results().At(0).Type()) {
+			continue
+		}
+		direct := false
+		calls(f, func(ci ssa.CallInstruction) {
+			if cal := ci.Common().StaticCallee(); cal == readNode {
+				direct = true
+			}
+		})
+		if !direct {
+			continue
+		}
+		nc++
+		c.touch(f)
+		g := liveGuardsOf(c.P, f)
+		tests := len(g.notDel) + len(g.notExp)
+		c.check(tests == 0, fnName(f), "the per-segment collector hands dead records on to the newest-wins merge", c.P.pos(f.Pos()), "",
+			"this function collects the candidates of one on-disk segment and tests them for the delete marker / expiry itself: a tombstone (or expired version) in this segment is dropped before the newest-wins merge has seen it, so it no longer hides the live version of the key in an older segment - the deleted key reappears in sparse-mode scans once its tombstone's segment is sealed")
+	}
+	c.minInstances("per-segment collectors of the sparse scans", nc, 2)
 	// (c) memory results are appended before disk results
 	m := 0
 	for _, f := range cone {
